@@ -41,6 +41,16 @@ def load_modules():
     return mods
 
 
+class LoopSpecs(list):
+    """the specs that sidecar modules give for one loop"""
+
+    def pick(self, current_module):
+        for ls in self:
+            if getattr(ls, 'module', None) is current_module:
+                return ls
+        return self[0]
+
+
 def build_registry(mods):
     # hooks that need every sidecar module to be loaded (e.g. sharing contracts between properties)
     for m in mods:
@@ -76,12 +86,18 @@ def build_registry(mods):
             reg.scoped_models.setdefault(m.prop, {})[f] = mm
             reg.__dict__.setdefault('module_models', {}).setdefault(m, {})[f] = mm
         for ls in m.loops:
-            reg.loops[(ls.qname, ls.ordinal)] = ls
+            # keyed per module: the spec of the module whose contract is being verified is preferred (loops.find_spec)
+            reg.loops[(ls.qname, ls.ordinal, m.prop)] = ls
     from contracts import common
     from . import models as _models
     reg.models[common.forall_range] = _models.q_forall
     reg.models[common.exists_range] = _models.q_exists
     reg.models[common.is_opaque] = _models.m_is_opaque
+    from . import texts as _texts
+    reg.models[common.prefix_join] = _texts.m_prefix_join
+    reg.models[common.peek] = _texts.m_peek
+    from . import textio as _textio
+    _textio.install(reg)
     from . import charclass as _charclass
     reg.models[common.all_chars] = _charclass.m_all_chars
     reg.models[common.sum_prefix] = _models.q_sum_prefix
@@ -93,14 +109,14 @@ def build_registry(mods):
     reg.models[common.items_of] = _models.m_items_of
     reg.link()
     # loop specs keyed by (file, ast-qualname, ordinal)
-    for (q, ordinal), ls in reg.loops.items():
+    for (q, ordinal, _prop), ls in reg.loops.items():
         modname, _, path = q.partition(':')
         try:
             mod = importlib.import_module(modname)
         except Exception as e:
             reg.missing.append((q, 'loop spec: cannot import %s' % modname))
             continue
-        reg.loops_by_key[(mod.__file__, path, ordinal)] = ls
+        reg.loops_by_key.setdefault((mod.__file__, path, ordinal), LoopSpecs()).append(ls)
     return reg
 
 
